@@ -32,6 +32,12 @@ CLAIMS = {
             note="Two explicit readings are counted as drift, not violations: the root declaration stands for the whole literal (keyword/blank offsets resolve to it), and type annotations are atomic. The AST walk of the harness is trusted base."),
  "C28": dict(engine="swc", design="3/C28", text="TLC enumerates iso literal headers from the grammar (layout schemes with odd white space incl. BOM/CR/FF, directives with and without spaces, names that start with or contain the keywords) x file placements relative to the artifact directory x both module kinds x call shapes; the expected classification is the real parser's verdict on the same text and the expected import is path arithmetic over segment sequences (SwcPath.tla); each case runs through the real compile_iso_literal_visitor and the printed module is projected (what replaced the call, which import was added, whether every other item is unchanged); TLC judges every record.",
             note="The real parser is the reference for classification; swc_ecma_codegen printing is the equality of 'other code'; Windows separators, files inside __isograph and template literals with substitutions are outside the model."),
+ "C17": dict(engine="artifactdir", design="3/C17", text="ArtifactDir.tla: disk tree, in-memory FileSystemState, per-operation apply with std::fs semantics, restarts, invalid compiles; TLC explores all 193 initial directory trees x histories of valid/invalid compiles; the invalid compiles are real: 8 classes of invalid programs (undefined field, iso parse error, undefined entrypoint, schema syntax error, duplicate field, undefined parent type, undefined variable, schema removed) run through the real compiler end to end, in batch mode and as watch-mode recompiles on a live CompilerState; the directory is snapshotted (path, bytes, inode, mtime) before and after and TLC checks it is untouched.",
+            note="Invalid-program classes are fixed (8); artifact-set substitution hook lets the real compile() be driven; inode/mtime make same-bytes rewrites visible."),
+ "C18": dict(engine="artifactdir", design="3/C18", text="TLC checks on the transcription of recreate_all / diff / apply_file_system_operations (every admissible operation order, arbitrary initial directory contents, sequences of compiles and restarts) that after a successful compile the directory equals the artifact set and later compiles write only changed artifacts; every generated transition is replayed through the real compile() on a temp directory and every recorded operation list and resulting tree is validated by TLC (order admissible, PostOk, WriteMinimal, and a valid compile must not fail when nobody interfered).",
+            note="The empty artifact set is out of scope (the compiler always writes iso.ts and tsconfig.json); HashMap order cannot be forced, the model explores all orders and each observed order must be admissible. Two genuine defects were repaired (known_findings.json)."),
+ "C19": dict(engine="artifactdir", design="3/C19", text="Same specification with faults: every admissible operation order x every operation index x four fault kinds (I/O error, kill, torn write + error, torn write + kill) x same session or new process x same or changed artifact set; TLC checks that the next successful compile restores the C18 postcondition; every case is replayed on the real code through the fault-injection hook and validated by TLC.",
+            note="A process kill is simulated by stopping the operation loop and dropping the state; torn writes are modelled as a truncated file."),
 }
 
 checks = []
